@@ -159,16 +159,17 @@ theorem asyncStep_inv (m : Machine) (env : GEnv) (e : Ev) (hwf : WF m.root) (hi 
   unfold asyncStep
   split
   · exact ⟨hinv.legal, hinv.noerr⟩
-  · have h1 := processEvent_inv hooksAsync hooksAsync_ok .async m env e hwf hi hsel s hinv
+  · have hinv' : Inv m (emit ("#recv:" ++ e.type) s) := ⟨hinv.legal, hinv.noerr⟩
+    have h1 := processEvent_inv hooksAsync hooksAsync_ok .async m env e hwf hi hsel _ hinv'
     have h2 := transientLoop_inv hooksAsync hooksAsync_ok .async m env hwf hi hsel m.maxIterations _ h1
     simp only
     split
     · exact ⟨h2, rfl⟩
     · rename_i herr
       have hnone : (transientLoop hooksAsync Flavor.async m env m.maxIterations
-          (processEvent hooksAsync Flavor.async m env e s)).err = none := by
+          (processEvent hooksAsync Flavor.async m env e (emit ("#recv:" ++ e.type) s))).err = none := by
         cases he : (transientLoop hooksAsync Flavor.async m env m.maxIterations
-          (processEvent hooksAsync Flavor.async m env e s)).err with
+          (processEvent hooksAsync Flavor.async m env e (emit ("#recv:" ++ e.type) s))).err with
         | none => rfl
         | some _ => simp [he] at herr
       split
